@@ -84,8 +84,17 @@ def s_save(ctx):
         o = SObj(pathlib.PurePosixPath, "path", lazy=_forbid("Path"))
         ok = isinstance(p, SStr) and p is model_path
         o.fields["name"] = SStr(base) if ok else Opaque("name")
+        parent = SObj(pathlib.PurePosixPath, "parent_dir", lazy=_forbid("Path.parent"))
+        parent.fields["name"] = Opaque("dirname")
+        o.fields["parent"] = parent
         return o
     I.models[pathlib.Path] = m_path
+    # onnx_ir helpers that (by their documentation) rewrite the tensors / locations of the model they are given
+    mutated = []
+    for _nm in ("set_base_dir", "load_to_model", "unload_from_model", "convert_tensors_to_external", "convert_tensors_from_external"):
+        _f = getattr(ir.external_data, _nm, None)
+        if _f is not None:
+            I.models[_f] = (lambda nm: lambda interp, *a, **k: mutated.append((nm, a)))(_nm)
     I.models[importlib.util.find_spec] = lambda interp, name: (object() if ctx.choose(2, "tqdm-installed") == 0 else None)
     pbar = SObj(object, "pbar")
     pbar.fields.update(total=None)
@@ -145,6 +154,9 @@ def s_save(ctx):
         raised = e.exc
     writes = [(o, f) for (o, f) in I.heap_writes if any(o is x for x in owned)]
     ctx.check("C20.save.model_is_read_only", len(writes) == 0, CL2)
+    touched = [nm for nm, a in mutated if any(any(x is o for o in owned) for x in a)]
+    ctx.check("C20.save.no_mutating_external_data_helper_is_applied_to_the_model", not touched,
+              CL2 + " — set_base_dir / load_to_model / unload_from_model / convert_tensors_* rewrite the model they are given")
     if raised is not None:
         ctx.cover("save.refused")
         ctx.check("C20.save.refusal_is_ValueError_and_made_no_file_system_effect",
